@@ -153,9 +153,10 @@ JP runC17(uint64_t runSeed, int64_t runIdx, const TierCfg &cfg) {
     line->set("seed", hex64(runSeed));
 
     HeapKnobs knobs = HeapKnobs::draw(rng);
-    Op op = gen.c17Op();
-    if (cfg.maxCellsOverride > 0 && false) {
-    }
+    // the first runs of every sweep are a fixed catalogue (every pentagon at every
+    // resolution for each allocation structure); the rest is generated from the seed
+    Op op;
+    if (!gen.catalogueC17(runIdx, op)) op = gen.c17Op();
     chain.add(op.hash());
     line->set("fn", FN_NAMES[op.fn]);
     line->set("tag", op.tag);
